@@ -173,7 +173,14 @@ class OperationGroup(ContextMixin, ContentMixin):
                     storage_limit if storage_limit is not None else default_storage_limit(x, constants),
                 )
             ),
-            'fee': lambda i, x: str(default_fee(x, gas_limit, minimal_nanotez_per_gas_unit)),
+            # NOTE: `gas_limit` is replaced before `fee`, so the fee is computed for the limit the content actually carries
+            'fee': lambda i, x: str(
+                default_fee(
+                    x,
+                    gas_limit if gas_limit is not None else int(x['gas_limit']),
+                    minimal_nanotez_per_gas_unit,
+                )
+            ),
         }
 
         def fill_content(idx, content):
